@@ -14,55 +14,50 @@ open CrCube CrCube.Collator CrCube.Lemmas.Bridge CrCube.Lemmas.AnchoredFinal
 
 /-! ## block extents -/
 
-theorem blocksOf_nr (w u : MatCounts) (wdn udn : Bool) (x : SubCtx) (key : MKey) (n : Nat)
-    (hw : w.nrows = n) (hu : u.nrows = n) : (blocksOf w u wdn udn x key).nr = n := by
-  cases key <;>
-    simp [blocksOf, Msr.counts, SumSub.blocks, Msr.rowWeightedBases, Msr.rowUnweightedBases,
-      Msr.columnWeightedBases, Msr.columnUnweightedBases, Msr.tableBases, Msr.rowProportions,
-      Msr.columnProportions, Msr.tableProportions, Blocks.zipWith, hw, hu]
+theorem dirPropBlocks_ext (m : MatCounts) (x : SubCtx) (d : Dir) :
+    (dirPropBlocks m x d).nr = m.nrows ∧ (dirPropBlocks m x d).nc = m.ncols ∧
+    (dirPropBlocks m x d).nrs = x.rowSubs.length ∧ (dirPropBlocks m x d).ncs = x.colSubs.length := by
+  cases d <;>
+    simp [dirPropBlocks, Msr.counts, SumSub.blocks, Msr.rowWeightedBases, Msr.columnWeightedBases,
+      Msr.tableBases, Msr.rowProportions, Msr.columnProportions, Msr.tableProportions, Blocks.zipWith]
 
-theorem blocksOf_nc (w u : MatCounts) (wdn udn : Bool) (x : SubCtx) (key : MKey) (n : Nat)
-    (hw : w.ncols = n) (hu : u.ncols = n) : (blocksOf w u wdn udn x key).nc = n := by
+/-- the extents of every measure's blocks are those of the extractor and of the subtotal lists -/
+theorem sliceBlocks_ext (c : CubeData) (rows cols : RDim) (key : MKey) :
+    let b := sliceBlocks c rows cols key
+    (b.nr = c.w.nrows ∨ b.nr = c.u.nrows) ∧ (b.nc = c.w.ncols ∨ b.nc = c.u.ncols) ∧
+    b.nrs = rows.subtotals.length ∧ b.ncs = cols.subtotals.length := by
+  have hp := dirPropBlocks_ext c.w (sliceCtx rows cols) (popDir rows.catDate cols.catDate)
   cases key <;>
-    simp [blocksOf, Msr.counts, SumSub.blocks, Msr.rowWeightedBases, Msr.rowUnweightedBases,
+    simp [sliceBlocks, sliceCtx, Msr.counts, SumSub.blocks, Msr.rowWeightedBases, Msr.rowUnweightedBases,
       Msr.columnWeightedBases, Msr.columnUnweightedBases, Msr.tableBases, Msr.rowProportions,
-      Msr.columnProportions, Msr.tableProportions, Blocks.zipWith, hw, hu]
-
-theorem blocksOf_nrs (w u : MatCounts) (wdn udn : Bool) (x : SubCtx) (key : MKey) :
-    (blocksOf w u wdn udn x key).nrs = x.rowSubs.length := by
-  cases key <;>
-    simp [blocksOf, Msr.counts, SumSub.blocks, Msr.rowWeightedBases, Msr.rowUnweightedBases,
-      Msr.columnWeightedBases, Msr.columnUnweightedBases, Msr.tableBases, Msr.rowProportions,
-      Msr.columnProportions, Msr.tableProportions, Blocks.zipWith]
-
-theorem blocksOf_ncs (w u : MatCounts) (wdn udn : Bool) (x : SubCtx) (key : MKey) :
-    (blocksOf w u wdn udn x key).ncs = x.colSubs.length := by
-  cases key <;>
-    simp [blocksOf, Msr.counts, SumSub.blocks, Msr.rowWeightedBases, Msr.rowUnweightedBases,
-      Msr.columnWeightedBases, Msr.columnUnweightedBases, Msr.tableBases, Msr.rowProportions,
-      Msr.columnProportions, Msr.tableProportions, Blocks.zipWith]
+      Msr.columnProportions, Msr.tableProportions, Blocks.zipWith, varianceBlocks, stdErrKeyBlocks,
+      zKeyBlocks, pKeyBlocks, colIndexBlocks, blocksOfFn, Msr.sums, Msr.nanMeasure, NanSub.blocks,
+      Msr.rowShareSum, Msr.columnShareSum, Msr.totalShareSum]
+  · exact ⟨Or.inl hp.1, Or.inl hp.2.1, hp.2.2.1, hp.2.2.2⟩
 
 section slice
 variable (c : CubeData) (rows cols : RDim)
 
 theorem sliceBlocks_nr (h : SliceWF c rows cols) (key : MKey) :
-    (sliceBlocks c rows cols key).nr = rows.cdim.elems.length :=
-  blocksOf_nr _ _ _ _ _ key _ h.2.2.1 h.2.2.2.2.1
+    (sliceBlocks c rows cols key).nr = rows.cdim.elems.length := by
+  rcases (sliceBlocks_ext c rows cols key).1 with h' | h'
+  · rw [h']; exact h.2.2.1
+  · rw [h']; exact h.2.2.2.2.1
 
 theorem sliceBlocks_nc (h : SliceWF c rows cols) (key : MKey) :
-    (sliceBlocks c rows cols key).nc = cols.cdim.elems.length :=
-  blocksOf_nc _ _ _ _ _ key _ h.2.2.2.1 h.2.2.2.2.2.1
+    (sliceBlocks c rows cols key).nc = cols.cdim.elems.length := by
+  rcases (sliceBlocks_ext c rows cols key).2.1 with h' | h'
+  · rw [h']; exact h.2.2.2.1
+  · rw [h']; exact h.2.2.2.2.2.1
 
 theorem sliceBlocks_nrs (h : SliceWF c rows cols) (key : MKey) :
     (sliceBlocks c rows cols key).nrs = rows.cdim.subs.length := by
-  unfold sliceBlocks
-  rw [blocksOf_nrs]
+  rw [(sliceBlocks_ext c rows cols key).2.2.1]
   exact h.2.2.2.2.2.2.1
 
 theorem sliceBlocks_ncs (h : SliceWF c rows cols) (key : MKey) :
     (sliceBlocks c rows cols key).ncs = cols.cdim.subs.length := by
-  unfold sliceBlocks
-  rw [blocksOf_ncs]
+  rw [(sliceBlocks_ext c rows cols key).2.2.2]
   exact h.2.2.2.2.2.2.2.1
 
 /-! ## what strip leaves alone -/
@@ -73,57 +68,133 @@ theorem sliceBlocks_strip (key : MKey) :
 theorem sliceWF_strip (h : SliceWF c rows cols) : SliceWF c rows.strip cols.strip := h
 
 theorem rowROrder_strip :
-    rowROrder (sliceBlocks c rows.strip cols.strip) c.w rows.strip cols.strip = .payload := rfl
+    rowROrder (sliceBlocks c rows.strip cols.strip) (sliceAvail c) (rowMarginalKeys c rows.strip cols.strip)
+      rows.strip cols.strip = .payload := rfl
 
 theorem colROrder_strip :
-    colROrder (sliceBlocks c rows.strip cols.strip) rows.strip cols.strip = .payload := rfl
+    colROrder (sliceBlocks c rows.strip cols.strip) (sliceAvail c) rows.strip cols.strip = .payload := rfl
 
 theorem rowPruneSubs_strip : rowPruneSubs c cols.strip = false := rfl
 theorem colPruneSubs_strip : colPruneSubs c rows.strip = false := rfl
 
 /-! ## the resolved collations cover the dimensions -/
 
-theorem rowROrder_wf (h : SliceWF c rows cols) :
-    (rowROrder (sliceBlocks c rows cols) c.w rows cols).WF rows.cdim := by
+theorem sliceVectors_length (values : List Val) (counts bases : List (List Val)) (subs : List Scale.Sub) :
+    (Scale.sliceVectors values counts bases subs).length = counts.length + subs.length := by
+  simp [Scale.sliceVectors]
+
+theorem mat_length (m : MatCounts) (f : Nat → Nat → Val) : (m.mat f).length = m.nrows := by
+  simp [MatCounts.mat, tab2]
+
+theorem rowScaleVectors_length : (rowScaleVectors c rows cols).length = c.w.nrows + rows.subtotals.length := by
+  unfold rowScaleVectors
+  rw [sliceVectors_length, mat_length, List.length_map]
+
+theorem colScaleVectors_length : (colScaleVectors c rows cols).length = c.w.ncols + cols.subtotals.length := by
+  unfold colScaleVectors
+  rw [sliceVectors_length, List.length_map]
+  simp [tab2]
+
+/-- every marginal a rows order may sort by has one value per row element and per row subtotal -/
+theorem rowMarginalKeys_wf (h : SliceWF c rows cols) (m : MargKey) (v sv : List Val)
+    (hm : rowMarginalKeys c rows cols m = some (v, sv)) :
+    v.length = rows.cdim.elems.length ∧ sv.length = rows.cdim.subs.length := by
   have hnr := sliceBlocks_nr c rows cols h
   have hnrs := sliceBlocks_nrs c rows cols h
+  have hw : c.w.nrows = rows.cdim.elems.length := h.2.2.1
+  have hs : rows.subtotals.length = rows.cdim.subs.length := h.2.2.2.2.2.2.1
+  have hvl := rowScaleVectors_length c rows cols
+  have htake : ∀ {β : Type} (f : Scale.VecStats → β),
+      (((rowScaleVectors c rows cols).take c.w.nrows).map f).length = rows.cdim.elems.length ∧
+      (((rowScaleVectors c rows cols).drop c.w.nrows).map f).length = rows.cdim.subs.length := by
+    intro β f
+    simp only [List.length_map, List.length_take, List.length_drop, hvl]
+    omega
+  cases m <;> simp only [rowMarginalKeys] at hm
+  · split at hm
+    · simp only [Option.some.injEq, Prod.mk.injEq] at hm
+      rw [← hm.1, ← hm.2, tab1_length, tab1_length, hnr, hnrs]; exact ⟨rfl, rfl⟩
+    · exact absurd hm (by simp)
+  · split at hm
+    · simp only [Option.some.injEq, Prod.mk.injEq] at hm
+      rw [← hm.1, ← hm.2, tab1_length, tab1_length, hnr, hnrs]; exact ⟨rfl, rfl⟩
+    · exact absurd hm (by simp)
+  · split at hm
+    · split at hm
+      · simp only [Option.some.injEq, Prod.mk.injEq] at hm
+        rw [← hm.1, ← hm.2, tab1_length, tab1_length, hnr, hnrs]; exact ⟨rfl, rfl⟩
+      · exact absurd hm (by simp)
+    · exact absurd hm (by simp)
+  all_goals
+    split at hm
+    · simp only [Option.some.injEq, Prod.mk.injEq] at hm
+      rw [← hm.1, ← hm.2]; exact htake _
+    · exact absurd hm (by simp)
+
+/-- `rowROrder` yields sort values of the right lengths whenever its sources do -/
+theorem rowROrder_wf_gen (B : MKey → Blocks) (avail : MKey → Bool)
+    (Mg : MargKey → Option (List Val × List Val)) (rows cols : RDim)
+    (hB : ∀ key, (B key).nr = rows.cdim.elems.length ∧ (B key).nrs = rows.cdim.subs.length)
+    (hMg : ∀ m v sv, Mg m = some (v, sv) →
+      v.length = rows.cdim.elems.length ∧ sv.length = rows.cdim.subs.length)
+    (hl : rows.labels.length = rows.cdim.elems.length ∧ rows.subLabels.length = rows.cdim.subs.length) :
+    (rowROrder B avail Mg rows cols).WF rows.cdim := by
   unfold rowROrder
   split
   · trivial
-  · exact ⟨h.2.2.2.2.2.2.2.2.1, h.2.2.2.2.2.2.2.2.2.2.1⟩
+  · exact hl
   · split
-    · exact ⟨by rw [tab1_length, hnr], by rw [tab1_length, hnrs]⟩
+    · split
+      · exact ⟨by rw [tab1_length, (hB _).1], by rw [tab1_length, (hB _).2]⟩
+      · trivial
     · trivial
   · split
     · trivial
     · split
-      · exact ⟨by rw [tab1_length, hnr], by rw [tab1_length, hnrs]⟩
+      · split
+        · exact ⟨by rw [tab1_length, (hB _).1], by rw [tab1_length, (hB _).2]⟩
+        · trivial
       · trivial
   · split
+    · rename_i m o v sv heq
+      rcases Option.bind_eq_some_iff.1 heq with ⟨mk, _, hmk⟩
+      exact hMg mk v sv hmk
+    · trivial
+  · trivial
+
+theorem colROrder_wf_gen (B : MKey → Blocks) (avail : MKey → Bool) (rows cols : RDim)
+    (hB : ∀ key, (B key).nc = cols.cdim.elems.length ∧ (B key).ncs = cols.cdim.subs.length)
+    (hl : cols.labels.length = cols.cdim.elems.length ∧ cols.subLabels.length = cols.cdim.subs.length) :
+    (colROrder B avail rows cols).WF cols.cdim := by
+  unfold colROrder
+  split
+  · trivial
+  · exact hl
+  · split
     · split
-      · exact ⟨by rw [tab1_length, hnr], by rw [tab1_length, hnrs]⟩
+      · exact ⟨by rw [tab1_length, (hB _).1], by rw [tab1_length, (hB _).2]⟩
       · trivial
+    · trivial
+  · split
     · split
-      · exact ⟨by rw [tab1_length, hnr], by rw [tab1_length, hnrs]⟩
+      · exact ⟨by rw [tab1_length, (hB _).1], by rw [tab1_length, (hB _).2]⟩
       · trivial
     · trivial
   · trivial
 
+theorem rowROrder_wf (h : SliceWF c rows cols) :
+    (rowROrder (sliceBlocks c rows cols) (sliceAvail c) (rowMarginalKeys c rows cols) rows cols).WF
+      rows.cdim :=
+  rowROrder_wf_gen _ _ _ rows cols
+    (fun key => ⟨sliceBlocks_nr c rows cols h key, sliceBlocks_nrs c rows cols h key⟩)
+    (rowMarginalKeys_wf c rows cols h)
+    ⟨h.2.2.2.2.2.2.2.2.1, h.2.2.2.2.2.2.2.2.2.2.1⟩
+
 theorem colROrder_wf (h : SliceWF c rows cols) :
-    (colROrder (sliceBlocks c rows cols) rows cols).WF cols.cdim := by
-  have hnc := sliceBlocks_nc c rows cols h
-  have hncs := sliceBlocks_ncs c rows cols h
-  unfold colROrder
-  split
-  · trivial
-  · exact ⟨h.2.2.2.2.2.2.2.2.2.1, h.2.2.2.2.2.2.2.2.2.2.2⟩
-  · split
-    · exact ⟨by rw [tab1_length, hnc], by rw [tab1_length, hncs]⟩
-    · trivial
-  · split
-    · exact ⟨by rw [tab1_length, hnc], by rw [tab1_length, hncs]⟩
-    · trivial
-  · trivial
+    (colROrder (sliceBlocks c rows cols) (sliceAvail c) rows cols).WF cols.cdim :=
+  colROrder_wf_gen _ _ rows cols
+    (fun key => ⟨sliceBlocks_nc c rows cols h key, sliceBlocks_ncs c rows cols h key⟩)
+    ⟨h.2.2.2.2.2.2.2.2.2.1, h.2.2.2.2.2.2.2.2.2.2.2⟩
 
 end slice
 
@@ -341,16 +412,15 @@ section strand
 variable (c : StrandData) (d : RDim)
 
 theorem strandBlocks_n (h : StrandWF c d) (key : SKey) : (strandBlocks c d key).n = d.cdim.elems.length := by
-  cases key <;> simp [strandBlocks, StripeMsr.sumMeasure, StripeMsr.bases, StripeMsr.tableProportions, h.2.1, h.2.2.1]
+  cases key <;>
+    simp [strandBlocks, StripeMsr.sumMeasure, StripeMsr.bases, StripeMsr.tableProportions, sblocksOfFn,
+      StripeMsr.nanMeasure, StripeMsr.shareSum, h.2.1, h.2.2.1]
+  · split <;> simp [h.2.1]
 
 theorem strandBlocks_ns (h : StrandWF c d) (key : SKey) : (strandBlocks c d key).ns = d.cdim.subs.length := by
   have hs := h.2.2.2.1
-  cases key
-  · simp [strandBlocks, StripeMsr.sumMeasure, hs]
-  · simp [strandBlocks, StripeMsr.sumMeasure, hs]
-  · simp [strandBlocks, StripeMsr.bases, hs]
-  · simp [strandBlocks, StripeMsr.bases, hs]
-  · simp only [strandBlocks, StripeMsr.tableProportions]
+  have htp : (StripeMsr.tableProportions c.w d.catDate d.subtotals).ns = d.cdim.subs.length := by
+    simp only [StripeMsr.tableProportions]
     cases htb : c.w.tableBase with
     | some t => simpa using hs
     | none =>
@@ -360,20 +430,42 @@ theorem strandBlocks_ns (h : StrandWF c d) (key : SKey) : (strandBlocks c d key)
       · have := h.2.2.2.2.2.2 h0
         rw [htb] at this
         exact absurd this (by simp)
+  cases key
+  · simp [strandBlocks, StripeMsr.sumMeasure, hs]
+  · simp [strandBlocks, StripeMsr.sumMeasure, hs]
+  · simp [strandBlocks, StripeMsr.bases, hs]
+  · simp [strandBlocks, StripeMsr.bases, hs]
+  · exact htp
+  · simp [strandBlocks, sblocksOfFn, hs]
+  · simp [strandBlocks, sblocksOfFn, hs]
+  · simp only [strandBlocks]
+    split
+    · exact htp
+    · exact htp
+  · simp [strandBlocks, sblocksOfFn, hs]
+  · simp [strandBlocks, StripeMsr.nanMeasure, hs]
+  · simp [strandBlocks, StripeMsr.sumMeasure, hs]
+  · simp [strandBlocks, StripeMsr.nanMeasure, hs]
+  · simp [strandBlocks, StripeMsr.nanMeasure, hs]
+  · simp [strandBlocks, StripeMsr.shareSum, hs]
 
 theorem strandBlocks_strip (key : SKey) : strandBlocks c d.strip key = strandBlocks c d key := rfl
 theorem strandWF_strip (h : StrandWF c d) : StrandWF c d.strip := h
-theorem strandROrder_strip : strandROrder (strandBlocks c d.strip) d.strip = .payload := rfl
+theorem strandROrder_strip :
+    strandROrder (strandBlocks c d.strip) (strandAvail c) d.strip = .payload := rfl
 
-theorem strandROrder_wf (h : StrandWF c d) : (strandROrder (strandBlocks c d) d).WF d.cdim := by
+theorem strandROrder_wf (h : StrandWF c d) :
+    (strandROrder (strandBlocks c d) (strandAvail c) d).WF d.cdim := by
   unfold strandROrder
   split
   · trivial
   · exact ⟨h.2.2.2.2.1, h.2.2.2.2.2.1⟩
   · split
-    · refine ⟨?_, ?_⟩
-      · simp only [StripeMsr.SBlocks.baseL, tab1_length]; exact strandBlocks_n c d h _
-      · simp only [StripeMsr.SBlocks.subsL, tab1_length]; exact strandBlocks_ns c d h _
+    · split
+      · refine ⟨?_, ?_⟩
+        · simp only [StripeMsr.SBlocks.baseL, tab1_length]; exact strandBlocks_n c d h _
+        · simp only [StripeMsr.SBlocks.subsL, tab1_length]; exact strandBlocks_ns c d h _
+      · trivial
     · trivial
   · trivial
 
